@@ -154,7 +154,18 @@ func (e *checkEnv) batch(t testing.TB, qs []*ketoapi.RelationTuple, depth int, p
 		if pre != nil {
 			pre(rs)
 		}
-		return f(ctx)
+		if hangs >= maxHangs {
+			return "H" // a check of this process does not return and keeps its processors: nothing more is measured here
+		}
+		done := make(chan string, 1)
+		go func() { done <- f(ctx) }()
+		select {
+		case s := <-done:
+			return s
+		case <-time.After(hangGrace):
+			hangs++
+			return "H"
+		}
 	}
 	eng = run(func(ctx context.Context) string {
 		rs, err := e.eng.BatchCheck(ctx, qs, depth)
@@ -225,6 +236,9 @@ func (e *checkEnv) runCheck(t testing.TB, q *ketoapi.RelationTuple, depth int, p
 		pre(rs, cancel)
 	}
 	t0 := time.Now()
+	if hangs >= maxHangs {
+		return 'H', 0, 0 // a check of this process does not return and keeps its processors: nothing more is measured here
+	}
 	done := make(chan checkgroup.Result, 1)
 	go func() { done <- e.eng.CheckRelationTuple(ctx, it, depth) }()
 	select {
@@ -296,7 +310,7 @@ func (e *checkEnv) transportCancel(t testing.TB, transport string, q *ketoapi.Re
 // A check that has not returned after hangGrace is recorded as 'H'. After
 // maxHangs of them the shard stops (each costs the full grace period) and says so.
 const hangGrace = 10 * time.Second
-const maxHangs = 3
+const maxHangs = 1
 
 var hangs int
 var leaksSeen int
